@@ -428,6 +428,46 @@ def main():
     if not os.path.exists(hook) or 'verifEvent("gate"' not in src or 'verifEvent("exit"' not in src:
         raise vlib.InfraError("verif hook of C19 is not applied to %s (apply /verif/hooks/C19-sse-gate.diff)" % vlib.REPO)
 
+    # --- long-lived clients on the real serving path, in the background while everything else runs ----
+    binp = vlib.go_build("./c19", "c19", race=True)
+    idle_s, ll_clients = (35, 3) if thorough else (13, 2)
+    ll = subprocess.Popen([binp, "longlived", str(idle_s), str(ll_clients)], stdout=subprocess.PIPE, stderr=subprocess.PIPE)
+    with _children_lock:
+        _children.add(ll)
+
+    def collect_longlived():
+        try:
+            out, errb = ll.communicate(timeout=idle_s + 120)
+        except subprocess.TimeoutExpired:
+            ll.kill()
+            raise vlib.InfraError("long-lived client run did not finish")
+        finally:
+            with _children_lock:
+                _children.discard(ll)
+        err = errb.decode(errors="replace")
+        summ = None
+        for line in out.decode(errors="replace").splitlines():
+            if not line.startswith("{"):
+                continue
+            r = json.loads(line)
+            if r.get("kind") == "fail":
+                ck.violation(r["sig"], "long-lived client: " + r["what"], r["case"])
+            elif r.get("kind") == "summary":
+                summ = r
+        if "HARNESS-ERROR" in err or (summ is None and "panic:" not in err):
+            raise vlib.InfraError("c19 longlived: rc=%s %s" % (ll.returncode, err[-1500:]))
+        if summ is None:
+            msg = [l for l in err.splitlines() if l.startswith("panic:")]
+            ck.violation(ROOT if "send on closed channel" in err else "Crash." + (msg[0] if msg else "?")[:60],
+                         "long-lived client: the process died: " + (msg[0] if msg else ""), {"served_by": "StartProxy"})
+            return
+        if "WARNING: DATA RACE" in err:
+            ck.violation("DataRace", "the race detector reported a data race while long-lived clients were connected", {"report": err[:1500]})
+        if not ck._nviol and (summ["pings"] < ll_clients * (idle_s // 5) or summ["received"] != ll_clients):
+            raise vlib.InfraError("long-lived client run too thin: %r" % summ)
+        ck.set("long_lived_clients", {"clients": summ["clients"], "connected_idle_s": summ["idle_s"], "pings_read": summ["pings"],
+                                      "received_broadcast": summ["received"], "served_by": "(*generatecmd.Generate).StartProxy"})
+
     # --- MC ----------------------------------------------------------------------------------------
     base = open(os.path.join(vlib.SPEC, "Sse_mc.cfg")).read()
     mc = vlib.tlc("Sse", "s.cfg", files={"s.cfg": no_props(base)}, workers=8, timeout=600)
@@ -448,7 +488,8 @@ def main():
     negs = {}
     neglist = (("Sse_close.cfg", "NoPanic"), ("Sse_noclose.cfg", "NoLeak"), ("Sse_locked.cfg", "BroadcasterNeverBlocks"),
                ("Sse_serial.cfg", "OthersUnaffected"), ("Sse_serial_live.cfg", "DeliveredDespiteStalledClient"),
-               ("Sse_timeoutdrop.cfg", "DeliveredAtQuiescence"), ("Sse_timeoutdrop_live.cfg", "Delivered"))
+               ("Sse_timeoutdrop.cfg", "DeliveredAtQuiescence"), ("Sse_timeoutdrop_live.cfg", "Delivered"),
+               ("Sse_servercut.cfg", "LiveClientStaysRegistered"))
     negres, negerr = {}, []
 
     def negrun(cfg):
@@ -474,7 +515,6 @@ def main():
     ck.set("negative_configs_rejected", negs)
 
     # --- which design is the tree? decided by replaying TLC's panic behaviour on the real code ------
-    binp = vlib.go_build("./c19", "c19", race=True)
     gen_close = vlib.tlc("Sse", "g.cfg", files={"g.cfg": cfg_text("Sse_gen.cfg", Design='"close"')}, workers=1, timeout=900)
     edges_close = gen_close.tagged("EDGE")
     if not gen_close.ok or len(edges_close) != gen_close.generated - 1:
@@ -587,6 +627,7 @@ def main():
     ck.set("subject_processes", restarts)
     ck.set("model_drift_cases", counts["drift"])
     if ck._nviol:
+        collect_longlived()
         ck.notes.append("violations found by schedule replay: stress / trace validation / HTTP churn not run")
         ck.set("traces_validated_against_impl", nrep)
         ck.finish()
@@ -672,6 +713,7 @@ def main():
     elif not died_net:
         raise vlib.InfraError("net churn produced no summary")
 
+    collect_longlived()
     ck.set("traces_validated_against_impl", len(chosen) + neps)
     ck.set("exhaustive", len(chosen) == len(scheds))
     ck.set("bounds", {"clients": 2, "broadcasts": 2, "mc_clients_thorough": 3, "stress_clients": "2..4", "stress_broadcasts": "1..3"})
@@ -681,6 +723,8 @@ def main():
     ck.assume("timer ticks after the time-0 ping (every 5 s) do not occur within a replayed schedule; MC explores them (MaxPings)")
     ck.assume("slow readers in real time: %d replayed behaviours keep one write stalled for %s ms while a delivery to that client is pending "
               "and require the event afterwards; a delivery that gives up only after a longer wait than that cannot be observed" % (len(picked), "/".join(str(x) for x in sorted({x["stall_ms"] for x in picked}))))
+    ck.assume("LiveClientStaysRegistered is bound on the real serving path ((*Generate).StartProxy, real TCP): %d clients stay connected "
+              "and idle for %d s before a broadcast; a server-side cut that happens later than that (e.g. a 60 s deadline) is not observed" % (ll_clients, idle_s))
     ck.assume("a stalled browser is a Write that does not return; a departed browser is a cancelled request context plus failing writes")
     ck.finish()
 
